@@ -670,6 +670,17 @@ func (e *Engine) runScript(s *Submission, script []string, r res.Resource, kind 
 			r.ResetEvent()
 		case "val":
 			r.Value()
+		case "pp":
+			// (only requests with params are given this action)
+			if pr, ok := r.(interface{ ParseParams(interface{}) }); ok {
+				var v model.ParamsT
+				pr.ParseParams(&v)
+			}
+		case "pt":
+			if pr, ok := r.(interface{ ParseToken(interface{}) }); ok {
+				var v model.TokenT
+				pr.ParseToken(&v)
+			}
 		case "status":
 			r.(interface{ SetResponseStatus(int) }).SetResponseStatus(402)
 		case "header":
